@@ -83,10 +83,71 @@ def run(case):
     return '+'.join(sorted(labels)), nt
 
 
+SPS = ['https://sp-a.example.org', 'https://sp-b.example.org', 'https://sp-c.example.org']
+_idps = {}
+
+
+def request_strategy():
+    from hypothesis import strategies as st
+    kd = st.tuples(st.sampled_from(['signing', 'signing', 'encryption', None]), st.sampled_from(POOL)).map(list)
+    fed = st.lists(st.lists(kd, max_size=3), min_size=2, max_size=3)
+    msg = st.fixed_dictionaries({'issuer': st.integers(0, 3), 'key': st.sampled_from(POOL), 'keyinfo': st.sampled_from(['none', 'signer-cert', 'other-cert', 'signer-rsa']),
+                                 'other': st.sampled_from(POOL), 'typ': st.sampled_from(['authn', 'logout']), 'alg': st.sampled_from(['sha1', 'sha256'])})
+    return st.fixed_dictionaries({'fed': fed, 'only_md': st.booleans(), 'want_signed': st.booleans(), 'messages': st.lists(msg, min_size=3, max_size=8)})
+
+
+def run_requests(case):
+    """the same rule on the IdP side: a signed AuthnRequest / LogoutRequest is handed over only if it verifies under a metadata signing key of its Issuer"""
+    now = spside.NOW
+    fed = case['fed']
+    world.install_inprocess_tool()
+    key = repr((fed, case['only_md'], case['want_signed']))
+    if key not in _idps:
+        ents = [{'entityid': SPS[i], 'sp': {'keys': [(u, k) for u, k in kds], 'acs': [(world.POST, SPS[i] + '/acs', 0, True)], 'slo': [(world.REDIRECT, SPS[i] + '/slo')]}} for i, kds in enumerate(fed)]
+        _idps.clear()
+        _idps[key] = world.make_idp(world.idp_conf(dict(world.DEFAULT_IDP, want_authn_requests_signed=case['want_signed'], only_use_keys_in_metadata=case['only_md'],
+                                                        sso=[('https://idp.verif.example/sso/post', world.POST)], slo=[('https://idp.verif.example/slo/post', world.POST)]),
+                                                   [build.entities_xml(ents)]))
+        clock.install()
+    idp = _idps[key]
+    clock.set_now(now)
+    labels = set()
+    nt = False
+    for m in case['messages']:
+        issuer = SPS[m['issuer']] if m['issuer'] < len(fed) else 'https://sp-unknown.example.org'
+        trusted = [k for u, k in fed[m['issuer']] if u in ('signing', None)] if m['issuer'] < len(fed) else []
+        kind = m['keyinfo']
+        if m['other'] == m['key'] and kind == 'other-cert':
+            kind = 'signer-cert'
+        ki = {'none': None, 'signer-cert': ('x509', world.cert_body(m['key'])), 'other-cert': ('x509', world.cert_body(m['other'])), 'signer-rsa': build.rsa_keyvalue(m['key'])}[kind]
+        q = {'id': 'id-q-1', 'issue_instant': build.ts(now), 'issuer': issuer, 'signature': build.sig_template('id-q-1', m['alg'], ki)}
+        if m['typ'] == 'authn':
+            xml = build.authn_request_xml(dict(q, destination='https://idp.verif.example/sso/post', acs_url=issuer + '/acs', protocol_binding=world.POST))
+            node = build.SAMLP + ':AuthnRequest'
+        else:
+            xml = build.logout_request_xml(dict(q, destination='https://idp.verif.example/slo/post'))
+            node = build.SAMLP + ':LogoutRequest'
+        xml = build.sign(xml, node, 'id-q-1', m['key'])
+        try:
+            req = idp.parse_authn_request(build.b64(xml), world.POST) if m['typ'] == 'authn' else idp.parse_logout_request(build.b64(xml), world.POST)
+            handed = req is not None and req.message is not None
+        except Exception:
+            handed = False
+        allowed = m['key'] in trusted or (not case['only_md'] and not trusted and kind == 'signer-cert')
+        if m['key'] not in trusted or kind != 'none':
+            nt = True
+        if handed and not allowed:
+            raise Violation('untrusted-request-signature-accepted:' + kind, 'signed %s request claiming issuer %s, signed with pool key %d (KeyInfo %s, only_use_keys_in_metadata=%r) was handed to the '
+                            'application; the issuer\'s metadata signing keys are %r' % (m['typ'], issuer, m['key'], kind, case['only_md'], trusted))
+        labels.add(('handed|' if handed else 'refused|') + ('md-key' if m['key'] in trusted else 'foreign-key'))
+    return '+'.join(sorted(labels)), nt
+
+
 def known_match(part, case, v):
     return None
 
 
 def parts(tier):
     quick = tier != 'thorough'
-    return [Part('federations', run, strategy=case_strategy, examples=600 if quick else 15000)]
+    return [Part('federations', run, strategy=case_strategy, examples=600 if quick else 15000),
+            Part('requests', run_requests, strategy=request_strategy, examples=300 if quick else 8000)]
